@@ -76,6 +76,16 @@ def cases(tier, rng):
             ops += ["send 7232", "wire b", "feed b " + W.tok(W.msg([b"", b"ok"])), "recv", "recv", "send 7233", "wire b"]
             out.append("w%d sock REQ / %s" % (k, " / ".join(ops)))
             k += 1
+    # the requester goes away between request and reply (REP learns it from a recv), the reply fails; a new connection
+    # under the same identity that never made a request must not be sent a later reply
+    for idl in (1, 16):
+        ident = W.tok(b"Q" * idl)
+        for how in ("cut", "eof"):
+            ops = ["attach a REQ id=" + ident, "feed a " + W.tok(W.msg([b"", b"a0"])), "recv"]
+            ops += (["feed a 0009aabb", "eof a"] if how == "cut" else ["eof a"]) + ["recv", "send 7231", "wire a",
+                    "attach b REQ id=" + ident, "send 7232", "wire b", "feed b " + W.tok(W.msg([b"", b"b0"])), "recv", "send 7233", "wire b"]
+            out.append("g%d sock REP / %s" % (k, " / ".join(ops)))
+            k += 1
     # two connections announcing the same identity: the newer replaces the older; requests and replies stay paired
     for idl in (1, 5, 255):
         ident = W.tok(b"I" * idl)
@@ -113,7 +123,7 @@ def cases(tier, rng):
 
 
 def compare_filter(line):
-    return not line.startswith(("d", "w"))      # the model assumes distinct identities and has no write faults
+    return not line.startswith(("d", "w", "g"))      # the model assumes distinct identities and has no write faults
 
 
 def norm_impl(o, line):
@@ -171,6 +181,21 @@ def judge(line, obs, orc):
                         return "REQ recv with a closed peer: %s" % tk
                     owing = False
                     gone = True
+    elif kind == "g":
+        sends = [(op, tk) for op, tk in po if op[0] == "send"]
+        wires = [(op, tk) for op, tk in po if op[0] == "wire"]
+        # first reply: the requester is gone (if REP has learnt it the reply fails; an orderly close between messages is the
+        # listed C16 finding and the reply is then written to the dead connection): nothing to judge here
+        # second send: b never made a request
+        if sends[0][1] != "s=ok":
+            if not sends[1][1].startswith("s=err:ReturnToSender:7232") or wires[1][1] != "wire:b=-":
+                return "REP sent a reply to a connection that never made a request (after the reply to a vanished requester had failed): %s %s" % (sends[1][1], wires[1][1][:60])
+        # third: b's genuine request is answered on b
+        rc = [tk for op, tk in po if op[0] == "recv"][-1]
+        if rc != "r=ok:6230":
+            return "request of the new connection not returned: " + rc
+        if sends[2][1] != "s=ok" or not wires[2][1].endswith(S.enc([b"", b"r3"])):
+            return "reply to the new connection's request: %s %s" % (sends[2][1], wires[2][1][:60])
     elif kind == "w":
         toks = [(op, tk) for op, tk in po if op[0] in ("send", "recv", "wire")]
         first = toks[0][1]
